@@ -36,6 +36,54 @@ def ty_class(ty):
     return None
 
 
+import re as _re
+_TRYFROM = _re.compile(r'^<(\w+) as core::convert::TryFrom>::try_from$')
+
+
+def checked_conv(x):
+    """x = `<int as TryFrom<_>>::try_from(y)?` (the Ok payload of a checked integer conversion): (dst type, y, call term).
+    std: Ok(v) has numerically the value of y, Err iff y does not fit dst."""
+    if x[0] == 'field' and x[2] in ('0', 0) and x[1][0] == 'payload' and x[1][2] == 'Ok':
+        c = x[1][1]
+        if c[0] == 'call' and isinstance(c[1], str) and len(c[2]) == 1:
+            m = _TRYFROM.match(c[1])
+            if m and m.group(1) in INT_RANGE:
+                return m.group(1), c[2][0], c
+    return None
+
+
+def _call_block(ib, T, ct):
+    for bi, t in ib.calls():
+        if not ib.blocks[bi]['cleanup'] and not ib.blocks[bi].get('dead') and norm(T.call_term(bi)) == ct:
+            return bi
+    return None
+
+
+def _tryfrom_src(ib, bi):
+    m = _re.search(r'TryFrom<(\w+)>', ib.blocks[bi]['term'].get('callee_full', ''))
+    return m.group(1) if m else None
+
+
+def _checked_exact(ib, T, cc, want_src='u128', want_dst='u64'):
+    """The checked conversion `cc` = (dst, y, call) is the exact guard: dst/src types are the 128 -> 64 bit pair and every
+    way out of its Err case returns InvalidInput, every way out of its Ok case an Ok value."""
+    dst, y, call = cc
+    bi = _call_block(ib, T, call)
+    if bi is None:
+        return False, 'checked conversion site not found'
+    src = _tryfrom_src(ib, bi)
+    if dst != want_dst or src != want_src:
+        return False, 'checked conversion is %s -> %s, expected %s -> %s' % (src, dst, want_src, want_dst)
+    rc = result_cases(T, bi)
+    if rc['?'] or not rc['ok'] or not rc['err']:
+        return False, 'the outcome of the checked conversion is not examined'
+    if not all(_is_invalid_input(r) for r in rc['err']):
+        return False, 'a value that does not fit into 64 bits is not rejected with InvalidInput: %s' % [fmt(r)[:80] for r in rc['err'] if not _is_invalid_input(r)][:1]
+    if not all(r[0] == 'adt' and r[2] == 'Ok' for r in rc['ok']):
+        return False, 'a value that fits into 64 bits is rejected (over-rejection): %s' % [fmt(r)[:80] for r in rc['ok'] if not (r[0] == 'adt' and r[2] == 'Ok')][:1]
+    return True, ''
+
+
 def lossless(t, self_ty, allow_narrow):
     """Is term t = the parameter through value-preserving steps only? returns (ok, why, narrowing casts seen)."""
     narrow = []
@@ -51,6 +99,10 @@ def lossless(t, self_ty, allow_narrow):
                 x = x[2][0]
                 continue
             return False, 'conversion %s' % x[1], narrow
+        cc = checked_conv(x)
+        if cc is not None:
+            x = cc[1]           # checked: the Ok payload is numerically the input
+            continue
         if x[0] == 'cast':
             kind, frm, to = x[1], x[2], x[3]
             if kind == 'IntToInt' and frm in INT_RANGE and to in INT_RANGE:
@@ -130,6 +182,9 @@ def rule_flow(ctx, rep, rid='R1'):
 def _vec_duration_flow(cad, b, pay, tr):
     """payload = collect(map(iter(&self), closure))  with closure = |x| x.<accessor>() as u64"""
     x = pay
+    if x[0] == 'field' and x[2] in ('0', 0) and x[1][0] == 'payload' and x[1][2] == 'Ok' and \
+            term_callee_is(x[1][1], 'as core::iter::traits::iterator::Iterator>::collect'):
+        x = x[1][1]         # collect::<Result<Vec<_>, _>>()?: Ok(vec of the Ok payloads, in order) iff no element failed
     if not term_callee_is(x, 'as core::iter::traits::iterator::Iterator>::collect'):
         return False, 'packed durations are not produced by iter().map().collect(): %s' % fmt(x)[:100]
     m = x[2][0]
@@ -182,6 +237,12 @@ def rule_units_and_guard(ctx, rep, units=True):
             oku = len(acc) == 1 and acc[0][1] == 'core::time::Duration::' + unit and peel(acc[0][2][0]) == ('param', 1)
             rep.ob('R2', inst, oku, b.where(), 'converted with %s()' % unit if oku else 'Duration is converted with %s, the unit for this kind is %s()' % ([a[1].rsplit('::', 1)[-1] for a in acc], unit))
             # the cast
+            cc = checked_conv(conv)
+            if cc is not None:
+                n_casts += 1
+                verdict, why = _checked_exact(ib, T, cc)
+                rep.ob('R3', inst, verdict, b.where(), 'checked u128 -> u64 conversion: Err (does not fit) returns InvalidInput, Ok carries the value' if verdict else why)
+                continue
             casts = [y for y in walk(conv) if y[0] == 'cast' and y[1] == 'IntToInt']
             n_casts += len(casts)
             if len(casts) != 1 or casts[0][2] != 'u128' or casts[0][3] != 'u64' or conv != casts[0]:
@@ -205,6 +266,15 @@ def rule_units_and_guard(ctx, rep, units=True):
                     anyc = (bi, ct)
                 if term_callee_is(ct, 'as core::iter::traits::iterator::Iterator>::map'):
                     mapc = (bi, ct)
+            if anyc is None and mapc is not None:
+                res = _vec_checked(cad, b, T, mapc, unit)
+                if res is not None:
+                    n_casts += 1
+                    oku, okx, why = res
+                    rep.ob('R2', inst, oku, b.where(), 'each element converted with %s()' % unit if oku else 'elements are not converted with %s(), the unit for this kind' % unit)
+                    rep.ob('R3', inst, okx, b.where(), 'every element goes through a checked u128 -> u64 conversion; the first failure is returned as InvalidInput, '
+                           'otherwise all converted elements are sent' if okx else why)
+                    continue
             if anyc is None or mapc is None:
                 rep.unknown('R3', inst, b.where(), 'expected `self.iter().any(too big)` guarding `self.iter().map(convert)`')
                 continue
@@ -259,6 +329,49 @@ def rule_units_and_guard(ctx, rep, units=True):
             rep.ob('R3', inst, ok, b.where(), 'any(count > u64::MAX) over the whole list rejects with InvalidInput, otherwise every element is cast' if ok else
                    (why if not verdict else 'any()/map() are not wired as reject-else-convert over the whole list (only part of the list is checked?)'))
     rep.floor('R3', 'narrowing u128->u64 conversions', n_casts, 4)
+
+
+def _vec_checked(cad, b, T, mapc, unit):
+    """`self.iter().map(|x| checked(x.unit())).collect::<Result<Vec<u64>, _>>()` : (unit ok, exact ok, why) or None if
+    the body is not of that shape."""
+    coll = None
+    for bi, t in b.calls():
+        if b.blocks[bi]['cleanup'] or b.blocks[bi].get('dead'):
+            continue
+        ct = norm(T.call_term(bi))
+        if term_callee_is(ct, 'as core::iter::traits::iterator::Iterator>::collect') and ct[2][0] == mapc[1]:
+            coll = (bi, ct)
+    if coll is None:
+        return None
+    dty = b.blocks[coll[0]]['term'].get('dest_ty', '').replace(' ', '')
+    if not dty.startswith('core::result::Result<alloc::vec::Vec<u64>,'):
+        return None
+    its = peel(mapc[1][2][0])
+    if not (term_callee_is(its, 'core::slice::iter') and peel(its[2][0]) == ('param', 1)):
+        return True, False, 'the conversion does not run over the whole argument list'
+    mb = _closure_body(cad, b, mapc[1][2][1])
+    if mb is None:
+        return None
+    mb = inl(cad, mb)
+    Tm = Terms(mb)
+    rts = ret_terms(Tm, [0])
+    oks = [r for r in rts if r[0] == 'adt' and r[2] == 'Ok']
+    if len(oks) != 1:
+        return True, False, 'element conversion has %d success shapes' % len(oks)
+    conv = dict(oks[0][3])['0']
+    cc = checked_conv(conv)
+    if cc is None:
+        return True, False, 'element conversion is not a checked integer conversion: %s' % fmt(conv)[:100]
+    acc = [y for y in walk(conv) if y[0] == 'call' and isinstance(y[1], str) and y[1].startswith('core::time::Duration::')]
+    oku = len(acc) == 1 and acc[0][1] == 'core::time::Duration::' + unit and peel(acc[0][2][0]) == ('param', 2) and cc[1] == acc[0]
+    okx, why = _checked_exact(mb, Tm, cc)
+    if okx:
+        # the collected result: Ok -> Ok(Packed(payload)), Err -> the element's error unchanged
+        rc = result_cases(T, coll[0])
+        okx = not rc['?'] and bool(rc['ok']) and bool(rc['err']) and all(r[0] == 'adt' and r[2] == 'Ok' for r in rc['ok']) and \
+            all(r[0] == 'adt' and r[2] == 'Err' and deep_peel(dict(r[3])['0']) == field_of(('payload', coll[1], 'Err'), '0', 0) for r in rc['err'])
+        why = 'the collected Result is not passed on as Ok(values) / Err(the element error)'
+    return oku, okx, why
 
 
 def _block_of_cast(b, frm, to):
